@@ -295,6 +295,17 @@ func (m *monitors) afterEvent(r *run) {
 // checkLog: C06 — gapless total order of exactly the pushed operations, sound checkpoints.
 func (m *monitors) checkLog(r *run, dts map[string]*dtInfo, inflight bool, final bool) {
 	fam := "log"
+	// after a database fault the recorded end may lag behind the stored operations until the next
+	// push-pull of that datatype repairs it (see C08): then the equation is only demanded at the end
+	faulted := false
+	for k, v := range r.res.Faults {
+		if strings.HasPrefix(k, "mongo-") && v > 0 && k != "mongo-slow" && k != "mongo-stall" {
+			faulted = true
+		}
+	}
+	if faulted && !final {
+		inflight = true
+	}
 	for _, duid := range sortedKeys(dts) {
 		di := dts[duid]
 		n := uint64(len(di.ops))
@@ -343,7 +354,22 @@ func (m *monitors) checkLog(r *run, dts map[string]*dtInfo, inflight bool, final
 			}
 		}
 		if di.doc.Key == "?orphan" {
-			if !inflight {
+			// A creation whose commit failed before the datatype document was written leaves operations
+			// behind; the creator's retry removes them. When somebody else created the key in between,
+			// the retry is refused and the rows stay: nobody was ever told that this datatype exists, so
+			// it is not "a datatype" of the property. Anything a client holds as subscribed must be there.
+			abandoned := false
+			if faulted {
+				abandoned = true
+				for _, a := range r.w.actors {
+					for _, d := range a.dts {
+						if d.dt.GetDUID() == duid && d.dt.GetState() == model.StateOfDatatype_SUBSCRIBED {
+							abandoned = false
+						}
+					}
+				}
+			}
+			if !inflight && !abandoned {
 				r.fail(fam, "C06.end-matches", "orphan-operations", "operations of %s are stored but no datatype document exists", duid)
 				if final {
 					// between a failed commit and the retry the log may be ahead of its datatype document
